@@ -466,3 +466,6 @@ func TestC15(t *testing.T) {
 		}
 	})
 }
+
+// FuzzC15 is the native coverage-guided supplement of the generated part (thorough tier only).
+func FuzzC15(f *testing.F) { fuzzProperty(f, TestC15) }
